@@ -80,6 +80,49 @@ CHECKS = {
             "y-diaeresis/unencodable chars, all length/padded combinations, mode toggles); the same and random histories run on the real "
             "class and TLC evaluates the predicates on the observed bytes and outcomes",
             "TLC; negative integers are outside the property", "DESIGN.md 6 C09"),
+    "C01": ("TLA+ small-step serializer and deserializer composed (ProtoSer;ProtoDeser); TLC checks RoundTrip on the model and emits every "
+            "(program, object); real generated code round-trips each; verdict on the observation",
+            "MC_Proto mode rt: TLC explores every object of the lossless bounded domains for every wire-unambiguous program of the corpus and "
+            "proves PRoundTrip of the model (a wrong 'wire-unambiguous' tag is found here); each object is built with the generated "
+            "constructor, serialized and deserialized by the generated code with fresh writer/reader: equal field by field, all bytes "
+            "consumed, byte_size equal to the byte count at every nesting level",
+            "the corpus (hand-written regression programs) bounds 'all programs'; Appendix A of DESIGN.md is the reading of the XML semantics",
+            "DESIGN.md 6 C01"),
+    "C02": ("TLA+ small-step serializer over the EoWriter spec (one action per XML instruction step, lazy value choice); TLC enumerates "
+            "objects and predicts bytes; replay on the code the real generator emits, in two spellings of the boolean defaults",
+            "ProtoSer.tla is an independent statement of the eo-protocol serialization semantics; TLC explores every object of the bounded "
+            "value domains (boundary ints, y-diaeresis/tilde/unencodable strings, unrecognised enum ordinals, absent optionals, every switch "
+            "case) in both entry modes for each program; the generated serialize()/write() must produce exactly the model's bytes, and "
+            "family()/action() the declared ones",
+            "the corpus bounds 'all programs'; TLC semantics", "DESIGN.md 6 C02"),
+    "C03": ("TLA+ small-step deserializer over the EoReader spec; TLC enumerates all single-fault corruptions of valid serializations and all "
+            "short hostile byte strings, checks InBounds/OnlyDocumentedError and termination (liveness under weak fairness); replay on the "
+            "generated deserializers",
+            "ProtoDeser.tla states the reading rules; MC_Proto modes hostile/bytes produce (program, bytes) pairs with the object, exception "
+            "class and position the rules prescribe; the generated deserialize must produce the same (ValueError only where the model has "
+            "the negative-length failure); a per-case alarm turns non-termination into a finding",
+            "the corpus bounds 'all programs'; array loops beyond 64 iterations are outside the bound", "DESIGN.md 6 C03"),
+    "C15": ("TLA+ frames record the mode found and restore it on Return and on frame-by-frame Unwind (try/finally); TLC checks the action "
+            "properties with injected failures at every early primitive call; replay with failing writer/reader and wrapped generated "
+            "methods that log entry/exit modes",
+            "PModeRestored/PDModeRestored are action properties of every frame exit in ProtoSer/ProtoDeser; MC_Proto explores both entry modes "
+            "x bounded values / corrupted bytes x a failure injected at each of the first 5 (8) primitive calls; the same behaviours run on "
+            "the generated code with a writer/reader that fails at that call; every generated serialize/deserialize (nested structs, array "
+            "elements, case data) is wrapped to record mode at entry and exit; verdict: exit mode = entry mode for every call",
+            "the corpus bounds 'all programs'; faults are injected at primitive reader/writer calls", "DESIGN.md 6 C15"),
+    "C16": ("TLA+ enumeration of all single declaration-violating changes of valid objects (ProtoInvalid) serialized by ProtoSer in "
+            "given-object mode; invariant Refused; replay of every violated object on the generated code",
+            "MC_Proto mode invalid: for every valid object TLC chose, every violating variant (None for required, wrong fixed/padded length, "
+            "array count +-1, more than the length field carries, integers/enum values/array elements at and above the limit, case data of "
+            "another case, None where a body is declared) at any nesting depth is run through the model (never completes) and through the "
+            "generated serialize, which must raise SerializationError or ValueError",
+            "the corpus bounds 'all programs'; one recorded known finding (F5: data for a value that selects no case)", "DESIGN.md 6 C16"),
+    "C19": ("TLA+ list of every public mutation target of an instance (ProtoObject) and histories of attempted mutations (action property "
+            "PImmutable); replay on constructed and deserialized real instances with projection and re-serialization after every action",
+            "MC_Proto mode mut: all histories of 2 (3) actions over assignment to every field/byte_size/nested field, in-place mutation of "
+            "array fields and later mutation of the caller's lists; on the real instance assignments must raise AttributeError, array fields "
+            "must be tuples, projection and serialized bytes must never change",
+            "one representative instance per program (including empty arrays)", "DESIGN.md 6 C19"),
 }
 
 PLANNED = {}
